@@ -528,7 +528,8 @@ fn class_for_algorithm(alg: &str, sym: &str, x: &[u8], t: &[u8]) -> String {
             match ch {
                 // the raw fallback is mis-framed whatever the payload is: one class
                 "chose=raw_fallback" => join(&[alg, ch]),
-                "chose=rans" => join(&[alg, ch, sym_kind(sym), rans_fact(t)]),
+                // y = [tag 1] ++ RansCompressor framing: the same facts (and class) as the Rans compressor itself
+                "chose=rans" => join(&["Rans", sym_kind(sym), rans_fact(t)]),
                 _ => join(&[alg, ch, sym, len_class(x.len()), alpha_class(x)]),
             }
         }
@@ -1080,12 +1081,16 @@ fn main() {
         const N_TINY: &[usize] = &[0, 1, 2, 3, 4, 5, 6, 7, 8, 9, 10, 16, 17, 31, 32, 33, 64, 65, 129];
         const SH_LZ: &[Sh] = &[Sh::Cyclic, Sh::Runs, Sh::Periodic, Sh::Zero, Sh::Noise, Sh::Period, Sh::English, Sh::AllBytes];
 
-        // trait-object compressors: Dictionary / Hybrid contain the O(n*window) LZ search → n <= 1025 (quick) / 8193
-        let gen = if q { def(5, &[N_LZ, N_SMALL], K_GEN, SHAPES_ALL) } else { def(7, &[N_LZ, N_QUICK, N_THOROUGH_EXTRA], K_GEN, SHAPES_ALL) };
-        let gen_lz = if q { def(4, &[N_LZ], K_SMALL, SHAPES_ALL) } else { def(6, &[N_LZ, N_SMALL, N_THOROUGH_EXTRA], K_SMALL, SHAPES_ALL) };
+        // trait-object compressors without an LZ search: the whole grid incl. 65535..65537 (u16 size fields)
+        let gen = if q { def(5, &[N_LZ, N_SMALL, N_HUGE], K_GEN, SHAPES_ALL) } else { def(7, &[N_LZ, N_QUICK, N_THOROUGH_EXTRA, N_HUGE], K_GEN, SHAPES_ALL) };
+        // Dictionary / Hybrid contain the O(n*min(n,32768)) LZ search: n <= 1025 (quick) / 4097 (thorough; the same code
+        // runs up to 8193 in C01's DictionaryCompressor subject)
+        let gen_lz = if q { def(4, &[N_LZ], K_SMALL, SHAPES_ALL) } else { def(5, &[N_LZ, N_SMALL], K_SMALL, SHAPES_ALL) };
         let front = if q { def(4, &[N_SMALL], K_SMALL, SHAPES_ALL) } else { def(6, &[N_QUICK, N_THOROUGH_EXTRA], K_SMALL, SHAPES_ALL) };
         const N_AD: &[usize] = &[0, 1, 2, 3, 4, 8, 9, 64, 65, 100, 1024, 1025, 4097];
         let front_ad = if q { def(3, &[N_AD], &[2, 17, 256], SHAPES_ALL) } else { def(5, &[N_SMALL, N_THOROUGH_EXTRA], K_SMALL, SHAPES_ALL) };
+        // `AdaptiveCompressor::train` runs every algorithm (two LZ searches) on two samples per case
+        let ad_trained = if q { def(3, &[N_LZ], &[2, 256], SHAPES_ALL) } else { def(4, &[N_LZ, &[4096, 4097]], K_SMALL, SHAPES_ALL) };
         // the inherent SimdLz77 search is O(n * 256 * window): n <= 129
         let tiny = if q { def(4, &[N_TINY], K_SMALL, SH_LZ) } else { def(5, &[N_TINY, &[255, 256, 257]], K_SMALL, SHAPES_ALL) };
         let pazip = if q { def(4, &[N_LZ, &[4096, 4097]], K_SMALL, SHAPES_ALL) } else { def(6, &[N_LZ, N_QUICK, N_THOROUGH_EXTRA], K_SMALL, SHAPES_ALL) };
@@ -1102,7 +1107,7 @@ fn main() {
         reg.add(Enum(Family {
             name: "Compressors/factory-lz",
             variants: sv(&["Dictionary", "Hybrid"]),
-            trains: all_tr.clone(),
+            trains: if q { all_tr.clone() } else { vec![Train::Same, Train::Uniform, Train::MinusRarest, Train::English] },
             space: gen_lz.clone(),
             run: run_factory,
         }));
@@ -1144,7 +1149,7 @@ fn main() {
             }
         }
         adt.push("default/default/trained/Zstd(1)->SimdLz77".to_string());
-        reg.add(Enum(Family { name: "AdaptiveCompressor/trained", variants: adt, trains: same.clone(), space: gen_lz.clone(), run: run_adaptive }));
+        reg.add(Enum(Family { name: "AdaptiveCompressor/trained", variants: adt, trains: same.clone(), space: ad_trained.clone(), run: run_adaptive }));
         let mut rtv = Vec::new();
         for m in ["UltraLowLatency", "LowLatency", "Balanced", "HighCompression"] {
             for d in ["far", "expired"] {
